@@ -342,6 +342,84 @@ def rule_traversal(rep):
         )
 
 
+def rule_visitor_order(rep):
+    with rep.rule(
+        "R03.visitor-order",
+        "the generic visitor hands a node the results of its children in iteration order: every "
+        "contribution to a result list (finished child, memoised child) is an append, made where "
+        "the child is met",
+    ) as r:
+        v = rep.repo.func("parglare.trees.visitor")
+        contrib = []
+        other = []
+        for c in walk_no_nested(v.node):
+            if isinstance(c, ast.Call) and isinstance(c.func, ast.Attribute):
+                recv = unparse(c.func.value)
+                if recv in ("results", "stack[-1][-1]", "stack[-1][2]"):
+                    (contrib if c.func.attr == "append" else other).append(c)
+        r.floor("contributions to a node's result list in visitor()", len(contrib) + len(other), 2)
+        r.check(
+            not other,
+            "sub-results are only ever appended",
+            "visitor:result-order",
+            f"visitor() changes a node's result list with `{unparse(other[0])[:60] if other else ''}`: a memoised (shared) "
+            "child no longer takes the place where it occurs among its siblings -- actions and tree builders get "
+            "their arguments in another order than the production's right-hand side",
+            node=other[0] if other else None,
+        )
+        srt = [c for c in walk_no_nested(v.node) if isinstance(c, ast.Call) and call_name(c) in ("sorted", "reversed", "sort", "reverse")]
+        r.check(not srt, "no reordering of results", "visitor:reorder",
+                f"visitor() reorders with {unparse(srt[0])[:40] if srt else ''}", node=srt[0] if srt else None)
+
+
+def rule_limited_rereduction(rep):
+    with rep.rule(
+        "R03.limited-rereduction",
+        "a re-reduction that is limited to a newly added link performs only reductions whose path "
+        "uses that link: an empty reduction has no path and is not repeated",
+    ) as r:
+        f = rep.repo.func("parglare.glr.GLRParser._do_reductions")
+        r.need("update_parent" in f.params, "_do_reductions has no update_parent parameter")
+        atoms = Atoms()
+        atoms.flag("len(production.rhs) == 0", "empty").flag("not len(production.rhs)", "empty")
+        atoms.flag("len(production.rhs) != 0", "empty", negate=True).flag("len(production.rhs)", "empty", negate=True)
+        atoms.flag("update_parent == None", "limited", negate=True).flag("update_parent != None", "limited")
+        atoms.flag("update_parent", "limited").flag("not update_parent", "limited", negate=True)
+        atoms.const("debug", False).const("self.debug", False)
+        space = [dict(empty=True, limited=a) for a in (False, True)]
+
+        def run(atom):
+            def eff(st, it):
+                if isinstance(st, ast.Expr) and isinstance(st.value, ast.Call) and is_self_attr(st.value.func, "_reduce"):
+                    return ("REDUCE",)
+                if isinstance(st, ast.Assign):
+                    return None
+                return NotImplemented
+
+            def on_loop(st, it):
+                raise AnalysisError("loop reached on the empty-production path of _do_reductions")
+
+            it = Interp(atom, eff, on_loop=on_loop)
+            ex = it.run(f.body)
+            return list(it.effects), ex
+
+        for leaf in explore(run, space, atoms):
+            effs, ex = leaf.result
+            for v in leaf.valuations:
+                exp = [] if v["limited"] else [("REDUCE",)]
+                r.check(
+                    effs == exp,
+                    f"empty production, {'limited to a new link' if v['limited'] else 'first visit of the head'}: "
+                    f"{'nothing' if not exp else 'one empty reduction'}",
+                    "_do_reductions:empty-under-update" if v["limited"] else "_do_reductions:empty",
+                    f"_do_reductions for an EMPTY production {'called for a newly added link (update_parent given)' if v['limited'] else 'on the first visit'} "
+                    f"performs {len(effs)} reduction(s); needed {len(exp)}: the head's empty reduction was already done, "
+                    "doing it again merges an identical alternative into the existing link (the forest counts and "
+                    "returns the same derivation twice)" + leaf.free_text(),
+                    node=f.node,
+                )
+
+
 def check(rep):
     rep.explanation = (
         "C03 (partial): index bounds decided completely as a decision table per public index "
@@ -356,6 +434,8 @@ def check(rep):
     rule_one_decoder(rep)
     rule_count_decode(rep)
     rule_traversal(rep)
+    rule_visitor_order(rep)
+    rule_limited_rereduction(rep)
     from .C02 import rule_link_key, rule_revisit
 
     rule_link_key(rep)  # links of different root nodes are never merged into one packed node
